@@ -158,6 +158,7 @@ def check_c19(tier):
                 fh.write(pp)
         trace = []
         srv = lsp.Server(trace=trace)
+        srv.meta["cfg"] = {"kind": c["cfg"]["kind"], "codes": sorted(c["cfg"]["codes"])}
         out = []
         try:
             srv.initialize(root)
@@ -167,9 +168,9 @@ def check_c19(tier):
                 path = os.path.join(root, FNAME[ev["d"]])
                 ver += 1
                 if ev["d"] in opened:
-                    diags = srv.did_change(path, TEXT[ev["d"]][ev["v"]], version=ver)
+                    diags = srv.did_change(path, TEXT[ev["d"]][ev["v"]], version=ver, tag=[ev["d"], ev["v"]])
                 else:
-                    diags = srv.did_open(path, TEXT[ev["d"]][ev["v"]], version=ver)
+                    diags = srv.did_open(path, TEXT[ev["d"]][ev["v"]], version=ver, tag=[ev["d"], ev["v"]])
                     opened.add(ev["d"])
                 out.append([diag_key(d) for d in diags])
                 if reopen and i + 1 < len(c["hist"]) and c["hist"][i + 1]["d"] != ev["d"]:
@@ -177,11 +178,11 @@ def check_c19(tier):
                     opened.discard(ev["d"])
             alive = srv.alive()
         except (lsp.ServerDied, lsp.Timeout) as e:
-            return {"error": str(e), "published": out, "trace": trace}
+            return {"error": str(e), "published": out}
         finally:
             srv.close()
             shutil.rmtree(root, ignore_errors=True)
-        return {"published": out, "alive": alive, "trace": trace}
+        return {"published": out, "alive": alive}
 
     # second pass (close / reopen): histories that come back to a document after the other one was notified
     back = [c for c in maximal if len(c["hist"]) >= 3 and c["hist"][-1]["d"] == c["hist"][0]["d"] and
@@ -190,7 +191,11 @@ def check_c19(tier):
     rnd2.shuffle(back)
     back = back[:200 if tier == "quick" else 3000]
     jobs = list(enumerate(maximal + back))
+    import lsptrace
+    lsptrace.start()
     results = lsp.run_parallel(jobs, session, workers=8)
+    # B2: every session's message log is a behaviour of LspTrace.tla (protocol obligations + Lsp.tla's Notify per notification)
+    n_trace_events = lsptrace.validate_collected(V, what="C19 sessions: histories x configuration variants, incl. the close / reopen pass")
     sessions = 0
     for (jn, c), res in zip(jobs, results):
         sessions += 1
